@@ -1,4 +1,4 @@
-(* C06 — concrete traces of the faithful model (refutation witnesses and non-vacuity examples). *)
+(* C06 — concrete traces of the model (regression witnesses of the two repaired defects and non-vacuity examples). *)
 From AV Require Import Lib.Base Generated.ClientConnGen Model.ClientConn.
 Open Scope N_scope.
 
@@ -10,23 +10,29 @@ Definition tr_exchange1 : list event :=
   [EConnect 1 rqA; EParams 1; ESegBegin 0; ETok (KHead 0 2 false false); ESegEnd; ERead 1;
    ESegBegin 0; ETok (KBody 1 2); ESegEnd; EBody 1].
 
-(* W1: an unsolicited response arrives while the connection idles in the pool; the next request gets it *)
+(* W1 (was a refutation before d13503d): an unsolicited response arrives while the connection idles in the pool;
+   _get now refuses that connection, the next request gets a fresh one and its own answer *)
 Definition tr_idle_unsolicited : list event :=
   tr_exchange1 ++
   [ESegBegin 0; ETok (KHead 2 0 false false); ESegEnd;
-   EConnect 2 rqA; EParams 2; ERead 2].
+   EConnect 2 rqA; EParams 2; ESegBegin 1; ETok (KHead 3 0 false false); ESegEnd; ERead 2].
 
-(* W2: the surplus response follows the end of the body in the same read; the reader had registered its
-   end-of-body callback, so the connection is released in the middle of that read *)
+(* W2 (was a refutation): the surplus response follows the end of the body in the same read; the reader had
+   registered its end-of-body callback, so the connection is released in the middle of that read *)
 Definition tr_same_read_surplus : list event :=
   [EConnect 1 rqA; EParams 1; ESegBegin 0; ETok (KHead 0 2 false false); ESegEnd; ERead 1;
    ESegBegin 0; ETok (KBody 1 2); ETok (KHead 2 0 false false); ESegEnd;
-   EConnect 2 rqA; EParams 2; ERead 2].
+   EConnect 2 rqA; EParams 2; ESegBegin 1; ETok (KHead 3 0 false false); ESegEnd; ERead 2].
 
-(* W3: an incomplete line follows the response; should_close does not see the parser's line buffer *)
+(* W3 (was a refutation before 2b34708): an incomplete line follows the response; should_close now sees the
+   parser's line buffer and the connection is closed at release *)
 Definition tr_partial_surplus : list event :=
   [EConnect 1 rqA; EParams 1; ESegBegin 0; ETok (KHead 0 0 false false); ETok (KPartial 1); ESegEnd; ERead 1;
    EConnect 2 rqA].
+
+(* W4: the incomplete line arrives while the connection is pooled: refused by _get *)
+Definition tr_partial_idle : list event :=
+  tr_exchange1 ++ [ESegBegin 0; ETok (KPartial 2); ESegEnd; EConnect 2 rqA].
 
 (* a well-behaved session: two requests share a connection, a third one to another port gets its own *)
 Definition tr_good : list event :=
@@ -34,28 +40,22 @@ Definition tr_good : list event :=
   [EConnect 2 rqA; EParams 2; ESegBegin 0; ETok (KHead 2 1 false false); ETok (KBody 3 1); ESegEnd; ERead 2; EBody 2;
    EConnect 3 rqB; EParams 3; ESegBegin 1; ETok (KHead 4 0 true false); ESegEnd; ERead 3].
 
-Definition ill_tagged (s : state) : Prop := exists d, In d (s_log s) /\ d_tag d <> TFlight (d_e d).
+Lemma w_idle_unsolicited : exists s, run faithful init tr_idle_unsolicited = Some s /\
+  s_idle_parsed s = true /\ s_nconn s = 2 /\ c_phase (s_conn s 0) = PClosed /\
+  length (s_log s) = 3%nat /\ forallb well_taggedb (s_log s) = true.
+Proof. eexists. split; [vm_compute; reflexivity|]. vm_compute. repeat split; reflexivity. Qed.
 
-Lemma w_idle_unsolicited : exists s, run faithful init tr_idle_unsolicited = Some s /\ ill_tagged s.
-Proof.
-  eexists. split; [vm_compute; reflexivity|].
-  exists {| d_e := 2; d_tag := TIdle; d_id := 2 |}. split; [vm_compute; tauto|discriminate].
-Qed.
-
-Lemma w_same_read_surplus : exists s, run faithful init tr_same_read_surplus = Some s /\ ill_tagged s.
-Proof.
-  eexists. split; [vm_compute; reflexivity|].
-  exists {| d_e := 2; d_tag := TFlight 1; d_id := 2 |}. split; [vm_compute; tauto|discriminate].
-Qed.
-
-(* the repaired _get (cfg_strict) creates a fresh connection instead *)
-Lemma w_idle_unsolicited_repaired : exists s, run repaired init
-    (tr_exchange1 ++ [ESegBegin 0; ETok (KHead 2 0 false false); ESegEnd; EConnect 2 rqA]) = Some s /\
-  s_nconn s = 2 /\ c_phase (s_conn s 0) = PClosed.
-Proof. eexists. split; [vm_compute; reflexivity|]. vm_compute. split; reflexivity. Qed.
+Lemma w_same_read_surplus : exists s, run faithful init tr_same_read_surplus = Some s /\
+  s_idle_parsed s = true /\ s_nconn s = 2 /\ c_phase (s_conn s 0) = PClosed /\
+  length (s_log s) = 2%nat /\ forallb well_taggedb (s_log s) = true.
+Proof. eexists. split; [vm_compute; reflexivity|]. vm_compute. repeat split; reflexivity. Qed.
 
 Lemma w_partial_surplus : exists s, run faithful init tr_partial_surplus = Some s /\
-  c_phase (s_conn s 0) = PFlight 2 /\ c_dirty (s_conn s 0) = true /\ s_idle_parsed s = false.
+  s_nconn s = 2 /\ c_phase (s_conn s 0) = PClosed /\ c_dirty (s_conn s 0) = true /\ s_idle_parsed s = false.
+Proof. eexists. split; [vm_compute; reflexivity|]. vm_compute. repeat split; reflexivity. Qed.
+
+Lemma w_partial_idle : exists s, run faithful init tr_partial_idle = Some s /\
+  s_nconn s = 2 /\ c_phase (s_conn s 0) = PClosed.
 Proof. eexists. split; [vm_compute; reflexivity|]. vm_compute. repeat split; reflexivity. Qed.
 
 Lemma w_good : exists s, run faithful init tr_good = Some s /\
